@@ -309,6 +309,7 @@ type scenario struct {
 	jitterUs   int
 	wire       int // > 0: run over the real kafka.Transport against this many byte-level brokers
 	moves      []leaderMove
+	defBal     bool                     // Writer.Balancer left unset: the default round-robin (one goroutine: message j of the run goes to partition j mod n)
 	writeTO    time.Duration            // > 0: Writer.WriteTimeout
 	stallAt    int                      // wire: the broker stops reading in the middle of the n-th produce request to arrive (special "stallwrite")
 	linger     time.Duration            // > 0: timed run — the trace carries clock ticks and the model's linger bound (BatchTimeout + slack) applies
@@ -775,6 +776,28 @@ func (b *builder) stallWrite(i int) *scenario {
 	return sc
 }
 
+// defaultBalancer: Writer.Balancer left unset.  One goroutine writes synchronously, so the default round-robin balancer
+// sends the j-th message of the run to partition j mod n; the declared partitions say so.
+func (b *builder) defaultBalancer(i int) *scenario {
+	r := b.r
+	n := 2 + i%3
+	sc := &scenario{name: "defbal" + strconv.Itoa(i), bs: 1 + r.Intn(3), bb: 1 << 20, ma: 2, async: false, compl: i%2 == 0, wtopic: "t",
+		timeout: 2 * time.Millisecond, nparts: map[string]int{"t": n}, faults: map[tpKey][]fault{}, closeAt: -1, defBal: true}
+	var calls []callSpec
+	j := 0
+	for c := 0; c < 3+r.Intn(3); c++ {
+		b.nextC++
+		cs := callSpec{id: b.nextC}
+		for k := 0; k < 1+r.Intn(4); k++ {
+			cs.msgs = append(cs.msgs, b.mkMsg(40+r.Intn(20), "", j%n, false))
+			j++
+		}
+		calls = append(calls, cs)
+	}
+	sc.callers = [][]callSpec{calls}
+	return sc
+}
+
 // tinyTimeout: BatchTimeout of microseconds with BatchSize 2 and odd message counts, while every batch creation is
 // stalled inside the partition mutex: the linger timer of a batch expires while writeMessages fills and queues it and
 // opens the next batch, so the timer branch of awaitBatch runs for a batch that is no longer attached
@@ -996,6 +1019,7 @@ func run(sc *scenario, out *bufio.Writer) {
 	}
 	var cbmu sync.Mutex
 	var cbs []string
+	var where []string
 	w := &kafka.Writer{
 		Addr: kafka.TCP("fake:9092"), Topic: sc.wtopic, Transport: f,
 		Balancer: kafka.BalancerFunc(func(m kafka.Message, parts ...int) int {
@@ -1004,6 +1028,9 @@ func run(sc *scenario, out *bufio.Writer) {
 		BatchSize: sc.bs, BatchBytes: sc.bb, BatchTimeout: sc.timeout, MaxAttempts: sc.ma,
 		WriteBackoffMin: 200 * time.Microsecond, WriteBackoffMax: time.Millisecond,
 		RequiredAcks: kafka.RequireOne, Async: sc.async,
+	}
+	if sc.defBal {
+		w.Balancer = nil
 	}
 	// non-default options that must reach the broker unchanged: acks (One / All; None is outside C01) and the codec
 	opt := len(sc.name)*7 + sc.bs + sc.ma + int(sc.bb%11)
@@ -1035,6 +1062,9 @@ func run(sc *scenario, out *bufio.Writer) {
 			cbmu.Lock()
 			for _, m := range msgs {
 				cbs = append(cbs, msgID(m.Key, m.Value)+" "+kafka.VerifErrCode(err))
+				if err == nil { // where the Writer says the message is: Topic / Partition / Offset as handed to Completion
+					where = append(where, fmt.Sprintf("%s:%s/%d@%d", msgID(m.Key, m.Value), m.Topic, m.Partition, m.Offset))
+				}
 			}
 			cbmu.Unlock()
 		}
@@ -1257,6 +1287,14 @@ func run(sc *scenario, out *bufio.Writer) {
 			shp = []string{"-"}
 		}
 		sb.WriteString(" | shapes " + strings.Join(shp, ";"))
+		cbmu.Lock()
+		wh := append([]string(nil), where...)
+		cbmu.Unlock()
+		sort.Strings(wh)
+		if len(wh) == 0 {
+			wh = []string{"-"}
+		}
+		sb.WriteString(" | where " + strings.Join(wh, ";"))
 		out.WriteString(sb.String())
 		out.WriteString("\n")
 		out.Flush()
@@ -1708,6 +1746,9 @@ func main() {
 	}
 	for i := 0; i < 3+extra && failedScenarios < 3; i++ {
 		run(b.stallWrite(i), out)
+	}
+	for i := 0; i < 6*extra && failedScenarios < 3; i++ {
+		run(b.defaultBalancer(i), out)
 	}
 	for i := 0; i < 3+extra && failedScenarios < 3; i++ {
 		run(b.trickleFamily(i), out)
